@@ -425,12 +425,12 @@ func c01Spec(name string, tier string, variant int) *seq.Spec {
 	switch variant {
 	case 0: // broad alphabet, shallow
 		keys = [][]byte{k01, k0100, k02, kff}
-		vals = [][]byte{[]byte("a"), []byte("b")}
+		vals = [][]byte{[]byte("a"), {}} // the empty (non-nil) value is a value, not a delete
 		bounds = keys
 		prefill = map[string][]byte{string(k0100): []byte("p"), string(kff): []byte("q")}
 		depth = 4
 		if tier == "thorough" {
-			vals = append(vals, []byte{})
+			vals = append(vals, []byte("b"))
 			maxWrap, maxOpen, depth = 3, 2, 5
 		}
 	case 1: // narrow alphabet, deep: sorted/unsorted dirty bookkeeping, re-set after delete, nested wraps
